@@ -32,7 +32,9 @@ ASSUMPTIONS = ["reference ops on (dims, labels, cells) in mc/props/c10.py; coord
 NAMES = ["x", "y", "z", "t"]
 AXDEF = {"x": ("i", [30, 10, 20]), "y": ("O", ["b", "a"]), "z": ("f", [2.5, 1.5, 0.5, 3.5]), "t": ("i", [7, 5, 3, 9, 1])}
 SINGLE = {"x": ("i", [30]), "y": ("O", ["b"]), "z": ("f", [2.5]), "t": ("i", [7])}
-FOREIGN = {"u": ("i", [100, 300, 200]), "w": ("O", ["p", "q"])}
+# (a target axis with ONE label and one with none: the new dimension carries the target's labels all the same)
+FOREIGN = {"u": ("i", [100, 300, 200]), "w": ("O", ["p", "q"]), "s": ("i", [77]), "e": ("f", [])}
+EMPTY = {"x": ("i", []), "y": ("O", []), "z": ("f", []), "t": ("i", [])}
 
 
 def bounds(tier):
@@ -299,6 +301,8 @@ def _bcarrays_cases(tier):
                 kk, ll = (SINGLE if d == sing else AXDEF)[d]
                 kinds.append(kk); labels.append(ll)
             P.append(D.spec(dims, labels, kinds, vk="f", base=5 + k, attrs={"units": "m"})); k += 1
+    for dims in (["x"], ["x", "y"], ["y", "x"]):       # the x axis has no labels: broadcasts against a missing or single-label x (1 -> 0, as in NumPy)
+        P.append(D.spec(dims, [(EMPTY if d == "x" else AXDEF)[d][1] for d in dims], [AXDEF[d][0] for d in dims], vk="f", base=5 + k)); k += 1
     for i in range(len(P)):
         for j in range(len(P)):
             yield {"bca": [P[i], P[j]]}
@@ -445,8 +449,11 @@ def _check_bcarrays(case):
         for r in refs:
             if d in r.dims:
                 l = r.labels[r.dims.index(d)]
-                if best is None or (len(best) == 1 and len(l) > 1):
+                if best is None or (len(best) == 1 and len(l) != 1):
                     best = l
+                elif len(l) != 1 and len(l) != len(best):
+                    call(common.da.broadcast_arrays, *arrs)
+                    return unspecified("not-broadcastable")     # two different lengths, none of them 1 (only with the empty axis)
         tg.append((d, best, {"x": "i", "y": "O", "z": "f", "t": "i"}[d]))
     got = call(common.da.broadcast_arrays, *arrs)
     for a, b in zip(arrs, befores):
@@ -458,11 +465,8 @@ def _check_bcarrays(case):
         return bad("broadcast_arrays returned {} arrays".format(len(got)))
     for k, (g, r) in enumerate(zip(got, refs)):
         exp = _ref_broadcast(r, tg)
-        if isinstance(g, DimArray) and tuple(g.dims) == tuple(exp.dims):
-            # labels of a dimension newly introduced from a single-label axis are not specified ([None] accepted)
-            for i, d in enumerate(exp.dims):
-                if d not in r.dims and len(exp.labels[i]) == 1 and py(g.axes[i].values) == [None]:
-                    exp.labels = tuple(l if q != i else [None] for q, l in enumerate(exp.labels))
+        # (a dimension newly introduced from a single-label axis carries that label like any other: earlier versions of this check
+        # accepted the placeholder label [None] there)
         if exp.ndim == 0:
             v = g.values[()] if isinstance(g, DimArray) else g
             if not same_scalar(v, exp.vals[()]):
